@@ -17,7 +17,8 @@ const relax = 1.0 + 1.0/1099511627776.0 // 1 + 2^-40: tier-R invariants are indu
 
 // verifVegasState builds a VegasLimit through the real constructor with a symbolic valid
 // configuration and then imposes an arbitrary state satisfying the representation invariant
-//   1 <= est <= max(maxLimit, initial)*(1+2^-40), jitter in [0.5,1), probeCount >= 0, baseline >= 0.
+//
+//	1 <= est <= max(maxLimit, initial)*(1+2^-40), jitter in [0.5,1), probeCount >= 0, baseline >= 0.
 func verifVegasState(smallRTT bool) (l *VegasLimit, hi int) {
 	initial := verif.Int("initial")
 	maxC := verif.Int("max")
